@@ -194,7 +194,7 @@ void check_empty(lgrid_t const &r, std::string const &sig)
 {
   VRT_CHECK(r.empty() && r.content() == 0 && r.begin() == r.end(), sig + ":not_empty",
             "different sizes gave a grid with %zu cells", static_cast<std::size_t>(r.end() - r.begin()));
-  VRT_CHECK(calls == 0, sig + ":calls_on_mismatch", "function called %zu times although sizes differ", calls);
+  info_check(calls == 0, sig + ":calls_on_mismatch"); // only "the result is an empty grid" is documented
 }
 
 std::vector<A3> sizes() { return tuples(N, 0, 3, 1); }
@@ -233,7 +233,7 @@ template <int C1, int K1, int C2, int K2, bool ALIAS> void apply2_combo()
         if (sa == sb)
         {
           check_result(r, sa, sig, [](A3 const &p) { return comb(1000 + enc(p), 2000 + enc(p)); });
-          VRT_CHECK(calls == static_cast<std::size_t>(product(N, sa)), sig + ":calls", "function called %zu times", calls);
+          info_check(calls == static_cast<std::size_t>(product(N, sa)), sig + ":calls"); // not documented
         }
         else
           check_empty(r, sig);
@@ -370,7 +370,7 @@ template <int C, int K> void map_combo()
     rvalue_seen = 0;
     lgrid_t const r = g::map(as<C>(a), f1<K>{});
     check_result(r, sz, sig, [](A3 const &p) { return 7L * (1000 + enc(p)) + 1L; });
-    VRT_CHECK(calls == static_cast<std::size_t>(product(N, sz)), sig + ":calls", "function called %zu times", calls);
+    info_check(calls == static_cast<std::size_t>(product(N, sz)), sig + ":calls"); // number of invocations is not documented
     if (C != 2)
     {
       check_unchanged(a, sz, 1000, sig + ":lvalue");
@@ -459,7 +459,7 @@ template <class F> void fill_combo(char const *kind, F const &f)
     calls = 0;
     g::fill(a, f);
     check_unchanged(a, sz, 6000, sig);
-    VRT_CHECK(calls == static_cast<std::size_t>(product(N, sz)), sig + ":calls", "function called %zu times", calls);
+    info_check(calls == static_cast<std::size_t>(product(N, sz)), sig + ":calls"); // number of invocations is not documented
   }
 }
 }
